@@ -56,7 +56,12 @@ class Parser(Emitter):
             fn = formulas.get_for(name)
         if fn is None:
             raise formulaserror.NAME
-        result['value'] = fn(*args)
+        try:
+            result['value'] = fn(*args)
+        except formulaserror.XLError as xle:
+            # functions raise the error values they meet among their arguments;
+            # inside a formula that is the value of the call, so IFERROR & co. can see it
+            result['value'] = xle
 
         def valsetter(new_value):
             if new_value is not None:
